@@ -1,101 +1,103 @@
 import JunoModel.C15.ProofsSim
-/-! One step of db/memory (variant `cfg`) against one step of the contract. -/
+/-! One step of an implementation `M` (with `S : Sim M`) against one step of the contract. -/
 namespace Juno.C15
 
-theorem commit_none_eq {α : Type} (f : Nat → Option α) :
-    (fun n => if some n = (none : Option Nat) then none else f n) = f := by
-  funext n; simp
-
-theorem commit_some_eq {α : Type} (f : Nat → Option α) (b : Nat) :
-    (fun n => if some n = some b then none else f n) = upd f b none := by
-  funext n
-  by_cases h : n = b
-  · subst h; simp
-  · simp [upd, h]
+section
+variable {B I : Type} {M : Impl B I} (S : Sim M)
 
 /-- readers see the same thing -/
-theorem read_sim (cfg : Cfg) {wm : World MBatch MIter} {ws : World SBatch SIter} (h : R wm ws)
-    (src : Src) :
-    (∃ e, wm.read (memImpl cfg) src = .inl e ∧ ws.read specImpl src = .inl e) ∨
-    (∃ g1 g2 c, wm.read (memImpl cfg) src = .inr (g1, c) ∧ ws.read specImpl src = .inr (g2, c) ∧
-      ∀ k, g1 k = g2 k) := by
+theorem read_sim {wm : World B I} {ws : World SBatch SIter} (h : R S wm ws)
+    (src : Src) (hsrc : srcOK ws src = true) :
+    (∃ e, wm.read M src = .inl e ∧ ws.read specImpl src = .inl e) ∨
+    (∃ g1 h1 g2 h2 v, wm.read M src = .inr (g1, h1, v) ∧ ws.read specImpl src = .inr (g2, h2, v) ∧
+      (∀ k, g1 k = g2 k) ∧ (∀ k, h1 k = h2 k)) := by
   cases src with
   | db =>
     simp only [World.read, h.db]
     cases ws.db with
     | none => exact Or.inl ⟨_, rfl, rfl⟩
-    | some d => exact Or.inr ⟨_, _, _, rfl, rfl, fun _ => rfl⟩
+    | some d => exact Or.inr ⟨_, _, _, _, _, rfl, rfl, S.dget d, S.dhas d⟩
   | snap n =>
     simp only [World.read, h.snaps]
-    cases ws.snaps n with
+    cases hsn : ws.snaps n with
     | none => exact Or.inl ⟨_, rfl, rfl⟩
-    | some d => exact Or.inr ⟨_, _, _, rfl, rfl, fun _ => rfl⟩
+    | some o =>
+      cases o with
+      | none => simp [srcOK, hsn] at hsrc
+      | some d => exact Or.inr ⟨_, _, _, _, _, rfl, rfl, S.sget d, S.shas d⟩
   | batch n =>
-    simp only [World.read, h.db]
-    cases hsb : ws.batches n with
-    | none =>
-      rw [(batches_none_iff h n).mpr hsb]
-      exact Or.inl ⟨_, rfl, rfl⟩
-    | some y =>
-      obtain ⟨sb, j⟩ := y
-      obtain ⟨mb, hm, hrb⟩ := batches_some h hsb
-      rw [hm]
-      cases j with
-      | false => exact Or.inl ⟨_, rfl, rfl⟩
-      | true =>
-        refine Or.inr ⟨_, _, _, ?_, rfl, fun k => RB_get hrb k⟩
-        show Sum.inr (MBatch.get (ws.db.getD []) mb, MBatch.flush (ws.db.getD []) mb) = _
-        rw [hrb.2.1]; rfl
+    simp only [srcOK, Bool.and_eq_true] at hsrc
+    obtain ⟨hopen, hidx⟩ := hsrc
+    cases hd : ws.db with
+    | none => simp [hd] at hopen
+    | some d =>
+      simp only [World.read, h.db, hd, h.nb]
+      cases hsb : ws.batches n with
+      | none =>
+        rw [(batches_none_iff S h n).mpr hsb]
+        exact Or.inl ⟨_, rfl, rfl⟩
+      | some y =>
+        obtain ⟨sb, j⟩ := y
+        obtain ⟨mb, hm, hrb⟩ := batches_some S h hsb
+        rw [hm]
+        have hj : j = true := by simpa [hsb] using hidx
+        subst hj
+        rw [hd] at hrb
+        refine Or.inr ⟨_, _, _, _, _, ?_, rfl, fun k => S.get k hrb, fun k => S.has k hrb⟩
+        simp only [Option.getD_some, S.view hrb]
 
 /-- the calls made inside an `Update`/`Write` callback -/
-theorem runInner_sim (cfg : Cfg) (d : KV) (hd : Sorted d) (idx : Bool) :
-    ∀ (ops : List BOp) (mb : MBatch) (sb : SBatch), RB d mb sb → ops.all (innerOK cfg) = true →
-      (runInner (memImpl cfg) d idx ops mb).2 = (runInner specImpl d idx ops sb).2 ∧
-      RB d (runInner (memImpl cfg) d idx ops mb).1 (runInner specImpl d idx ops sb).1 := by
+theorem runInner_sim (d : KV) (hd : Sorted d) (idx : Bool) :
+    ∀ (ops : List BOp) (mb : B) (sb : SBatch), S.rb idx (some d) mb sb →
+      (runInner M d idx ops mb).2 = (runInner specImpl d idx ops sb).2 ∧
+      S.rb idx (some d) (runInner M d idx ops mb).1 (runInner specImpl d idx ops sb).1 := by
   intro ops
   induction ops with
-  | nil => intro mb sb h _; exact ⟨rfl, h⟩
+  | nil => intro mb sb h; exact ⟨rfl, h⟩
   | cons op rest ih =>
-    intro mb sb h hok
-    simp only [List.all_cons, Bool.and_eq_true] at hok
-    obtain ⟨hok1, hok2⟩ := hok
+    intro mb sb h
     cases op with
     | put k v =>
-      have := ih _ _ (RB_put h k v) hok2
+      have := ih _ _ (S.put k v h)
       simp only [runInner]
-      exact ⟨by rw [show (memImpl cfg).bput mb k v = mb.put k v from rfl, this.1], this.2⟩
+      exact ⟨by rw [this.1], this.2⟩
     | del k =>
-      have := ih _ _ (RB_del h k) hok2
+      have := ih _ _ (S.del k h)
       simp only [runInner]
-      exact ⟨by rw [show (memImpl cfg).bdel mb k = mb.del k from rfl, this.1], this.2⟩
+      exact ⟨by rw [this.1], this.2⟩
     | delRange s e =>
-      have := ih _ _ (RB_delRange cfg hd h s e) hok2
+      have := ih _ _ (S.delRange s e hd h)
       simp only [runInner]
-      exact ⟨by rw [show (memImpl cfg).bdelRange d mb s e = mb.delRange cfg d s e from rfl, this.1], this.2⟩
+      exact ⟨by rw [this.1], this.2⟩
     | get k fail =>
-      have := ih _ _ h hok2
+      have := ih _ _ h
       simp only [runInner]
-      rw [show (memImpl cfg).bget d mb k = mb.get d k from rfl, RB_get h k, this.1]
-      exact ⟨rfl, this.2⟩
+      cases idx with
+      | false => simp only [Bool.false_eq_true, if_false]; exact ⟨by rw [this.1], this.2⟩
+      | true => simp only [if_true, S.get k h]; exact ⟨by rw [this.1], this.2⟩
     | has k =>
-      have := ih _ _ h hok2
+      have := ih _ _ h
       simp only [runInner]
-      rw [show (memImpl cfg).bget d mb k = mb.get d k from rfl, RB_get h k, this.1]
-      exact ⟨rfl, this.2⟩
+      cases idx with
+      | false => simp only [Bool.false_eq_true, if_false]; exact ⟨by rw [this.1], this.2⟩
+      | true => simp only [if_true, S.has k h]; exact ⟨by rw [this.1], this.2⟩
     | scan p u =>
-      have := ih _ _ h hok2
+      have := ih _ _ h
       simp only [runInner]
-      rw [show (memImpl cfg).bflush d mb = mb.flush d from rfl, h.2.1,
-        scan_sim cfg _ p u (by simpa [innerOK] using hok1), this.1]
-      exact ⟨rfl, this.2⟩
+      cases idx with
+      | false => simp only [Bool.false_eq_true, if_false]; exact ⟨by rw [this.1], this.2⟩
+      | true =>
+        simp only [if_true, S.view h]
+        cases specImpl.bview true d sb with
+        | inl e => exact ⟨by rw [this.1], this.2⟩
+        | inr c => simp only [scan_sim S c p u]; exact ⟨by rw [this.1], this.2⟩
 
 /-- a positioning call on iterator `i` -/
-theorem movePos_sim (cfg : Cfg) {wm : World MBatch MIter} {ws : World SBatch SIter} (h : R wm ws)
-    (i : Nat) (fm : MIter → MIter × Bool) (fs : SIter → SIter × Bool)
-    (hf : ∀ mi si, ws.iters i = some (some si) → RI mi si →
-      RI (fm mi).1 (fs si).1 ∧ (fm mi).2 = (fs si).2) :
-    (movePos (memImpl cfg) wm i fm).2 = (movePos specImpl ws i fs).2 ∧
-    R (movePos (memImpl cfg) wm i fm).1 (movePos specImpl ws i fs).1 := by
+theorem movePos_sim {wm : World B I} {ws : World SBatch SIter} (h : R S wm ws)
+    (i : Nat) (fm : I → I × Bool) (fs : SIter → SIter × Bool)
+    (hf : ∀ mi si, S.ri mi si → S.ri (fm mi).1 (fs si).1 ∧ (fm mi).2 = (fs si).2) :
+    (movePos M wm i fm).2 = (movePos specImpl ws i fs).2 ∧
+    R S (movePos M wm i fm).1 (movePos specImpl ws i fs).1 := by
   have hi := h.iters i
   unfold movePos
   cases hm : wm.iters i with
@@ -120,10 +122,353 @@ theorem movePos_sim (cfg : Cfg) {wm : World MBatch MIter} {ws : World SBatch SIt
         | none => rw [hm, hs] at hi; exact hi.elim
         | some si =>
           rw [hm, hs] at hi
-          have := hf mi si hs hi
+          have := hf mi si hi
           refine ⟨?_, ?_⟩
-          · show Out.pos (fm mi).2 (MIter.kv (fm mi).1) = Out.pos (fs si).2 (SIter.cur (fs si).1)
-            rw [this.2, RI_cur this.1]
-          · exact R_setiter h i (some (fm mi).1) (some (fs si).1) this.1 ws.iorigin
+          · show Out.pos (fm mi).2 (M.icur (fm mi).1) = Out.pos (fs si).2 (SIter.cur (fs si).1)
+            rw [this.2, S.cur this.1]
+          · exact R_setiter S h i (some (fm mi).1) (some (fs si).1) this.1 ws.iorigin
+
+/-- iterator table lookups agree in shape -/
+theorem iters_cases {wm : World B I} {ws : World SBatch SIter} (h : R S wm ws) (i : Nat) :
+    (wm.iters i = none ∧ ws.iters i = none) ∨ (wm.iters i = some none ∧ ws.iters i = some none) ∨
+    (∃ mi si, wm.iters i = some (some mi) ∧ ws.iters i = some (some si) ∧ S.ri mi si) := by
+  have hi := h.iters i
+  cases hm : wm.iters i with
+  | none =>
+    cases hs : ws.iters i with
+    | none => exact Or.inl ⟨rfl, rfl⟩
+    | some y => rw [hm, hs] at hi; cases y <;> exact hi.elim
+  | some x =>
+    cases x with
+    | none =>
+      cases hs : ws.iters i with
+      | none => rw [hm, hs] at hi; exact hi.elim
+      | some y =>
+        cases y with
+        | none => exact Or.inr (Or.inl ⟨rfl, rfl⟩)
+        | some si => rw [hm, hs] at hi; exact hi.elim
+    | some mi =>
+      cases hs : ws.iters i with
+      | none => rw [hm, hs] at hi; exact hi.elim
+      | some y =>
+        cases y with
+        | none => rw [hm, hs] at hi; exact hi.elim
+        | some si => rw [hm, hs] at hi; exact Or.inr (Or.inr ⟨mi, si, rfl, rfl, hi⟩)
+
+/-- the post-state agreement `R_commit` needs, from `f5Free` of the contract's post-state -/
+theorem agree_of_f5 {ws ws' : World SBatch SIter} (hfresh : ∀ n, ws'.nb ≤ n → ws'.batches n = none)
+    (hf5 : S.needF5 = true → f5Free ws' = true) (exc : Option Nat)
+    (hb : ∀ n, some n ≠ exc → ws'.batches n = ws.batches n) :
+    S.needF5 = true → ∀ n sb i d', some n ≠ exc → ws.batches n = some (sb, i) → ws'.db = some d' →
+      batchAgrees d' sb = true := by
+  intro hn n sb i d' hne hsb hd'
+  exact f5Free_get hfresh (hf5 hn) hd' (by rw [hb n hne]; exact hsb)
+
+theorem step_sim {wm : World B I} {ws : World SBatch SIter} (h : R S wm ws)
+    (op : Op) (hdoc : documented ws op = true) (hok : S.okOp op = true)
+    (hf5 : S.needF5 = true → f5Free (step specImpl ws op).1 = true) :
+    (step M wm op).2 = (step specImpl ws op).2 ∧ R S (step M wm op).1 (step specImpl ws op).1 := by
+  cases op with
+  | put k v =>
+    cases hd : ws.db with
+    | none => simp only [step, h.db, hd]; exact ⟨by first | rfl | trivial, h⟩
+    | some d =>
+      simp only [step, hd] at hf5
+      simp only [step, h.db, hd]
+      refine ⟨by first | rfl | trivial, ?_⟩
+      have := R_commit S h (some (d.put k v)) (by intro d' e; cases e; exact (h.sorted d hd).put k v) none
+        (fun hn n sb i d' hne hsb he => by
+          cases he
+          exact f5Free_get (ws := { ws with db := some (d.put k v) }) h.fresh (hf5 hn) rfl hsb)
+      simpa only [commit_none_eq] using this
+  | del k =>
+    cases hd : ws.db with
+    | none => simp only [step, h.db, hd]; exact ⟨by first | rfl | trivial, h⟩
+    | some d =>
+      simp only [step, hd] at hf5
+      simp only [step, h.db, hd]
+      refine ⟨by first | rfl | trivial, ?_⟩
+      have := R_commit S h (some (d.del k)) (by intro d' e; cases e; exact (h.sorted d hd).del k) none
+        (fun hn n sb i d' hne hsb he => by
+          cases he
+          exact f5Free_get (ws := { ws with db := some (d.del k) }) h.fresh (hf5 hn) rfl hsb)
+      simpa only [commit_none_eq] using this
+  | delRange s e =>
+    cases hd : ws.db with
+    | none => simp only [step, h.db, hd]; exact ⟨by first | rfl | trivial, h⟩
+    | some d =>
+      simp only [step, hd] at hf5
+      simp only [step, h.db, hd]
+      refine ⟨by first | rfl | trivial, ?_⟩
+      have := R_commit S h (some (d.delRange s e)) (by intro d' e'; cases e'; exact (h.sorted d hd).delRange s e) none
+        (fun hn n sb i d' hne hsb he => by
+          cases he
+          exact f5Free_get (ws := { ws with db := some (d.delRange s e) }) h.fresh (hf5 hn) rfl hsb)
+      simpa only [commit_none_eq] using this
+  | get src k fail =>
+    simp only [step]
+    rcases read_sim S h src (by simpa [documented] using hdoc) with ⟨e, h1, h2⟩ | ⟨g1, h1', g2, h2', v, h1, h2, hg, hh⟩
+    · rw [h1, h2]; exact ⟨by first | rfl | trivial, h⟩
+    · rw [h1, h2]; simp only [hg k]; exact ⟨by first | rfl | trivial, h⟩
+  | has src k =>
+    simp only [step]
+    rcases read_sim S h src (by simpa [documented] using hdoc) with ⟨e, h1, h2⟩ | ⟨g1, h1', g2, h2', v, h1, h2, hg, hh⟩
+    · rw [h1, h2]; exact ⟨by first | rfl | trivial, h⟩
+    · rw [h1, h2]; simp only [hh k]; exact ⟨by first | rfl | trivial, h⟩
+  | getw src k k2 v2 =>
+    have hsrc : srcOK ws src = true := by
+      simp only [documented, Bool.and_eq_true] at hdoc; exact hdoc.1
+    have hre : M.reentrant = true := S.reent src k k2 v2 hok
+    rcases read_sim S h src hsrc with ⟨e, h1, h2⟩ | ⟨g1, h1', g2, h2', v, h1, h2, hg, hh⟩
+    · simp only [step, h1, h2]; exact ⟨by first | rfl | trivial, h⟩
+    · simp only [step, h1, h2, hg k, hre, if_true] at hf5 ⊢
+      have hsre : specImpl.reentrant = true := rfl
+      simp only [hsre, if_true] at hf5 ⊢
+      cases hgk : g2 k with
+      | notfound => exact ⟨by first | rfl | trivial, h⟩
+      | err e => exact ⟨by first | rfl | trivial, h⟩
+      | val vv =>
+        simp only [hgk] at hf5 ⊢
+        cases hd : ws.db with
+        | none => simp only [h.db, hd]; exact ⟨by first | rfl | trivial, h⟩
+        | some d =>
+          simp only [hd] at hf5
+          simp only [h.db, hd]
+          refine ⟨by first | rfl | trivial, ?_⟩
+          have := R_commit S h (some (d.put k2 v2)) (by intro d' e; cases e; exact (h.sorted d hd).put k2 v2) none
+            (fun hn n sb i d' hne hsb he => by
+              cases he
+              exact f5Free_get (ws := { ws with db := some (d.put k2 v2) }) h.fresh (hf5 hn) rfl hsb)
+          simpa only [commit_none_eq] using this
+  | scan src p u =>
+    simp only [step]
+    rcases read_sim S h src (by simpa [documented] using hdoc) with ⟨e, h1, h2⟩ | ⟨g1, h1', g2, h2', v, h1, h2, hg, hh⟩
+    · rw [h1, h2]; exact ⟨by first | rfl | trivial, h⟩
+    · rw [h1, h2]
+      cases v with
+      | inl e => exact ⟨by first | rfl | trivial, h⟩
+      | inr c => simp only [scan_sim S c p u]; exact ⟨by first | rfl | trivial, h⟩
+  | rscan src p u t =>
+    simp only [step]
+    rcases read_sim S h src (by simpa [documented] using hdoc) with ⟨e, h1, h2⟩ | ⟨g1, h1', g2, h2', v, h1, h2, hg, hh⟩
+    · rw [h1, h2]; exact ⟨by first | rfl | trivial, h⟩
+    · rw [h1, h2]
+      cases v with
+      | inl e => exact ⟨by first | rfl | trivial, h⟩
+      | inr c => simp only [rscan_sim S c p u t]; exact ⟨by first | rfl | trivial, h⟩
+  | iter src p u =>
+    simp only [step]
+    rcases read_sim S h src (by simpa [documented] using hdoc) with ⟨e, h1, h2⟩ | ⟨g1, h1', g2, h2', v, h1, h2, hg, hh⟩
+    · rw [h1, h2]
+      exact ⟨by first | rfl | trivial, { h with ni := (by first | rfl | simp [h.ni]) }⟩
+    · rw [h1, h2]
+      cases v with
+      | inl e => exact ⟨by first | rfl | trivial, { h with ni := (by first | rfl | simp [h.ni]) }⟩
+      | inr c =>
+        simp only [h.ni]
+        refine ⟨by first | rfl | trivial, ?_⟩
+        have hri : RIo S (some (some (M.imk c p u))) (some (some (specImpl.imk c p u))) := S.mkIter c p u
+        have := R_setiter S h ws.ni (some (M.imk c p u)) (some (specImpl.imk c p u)) hri
+          (upd ws.iorigin ws.ni src)
+        exact { this with ni := (by first | rfl | simp [h.ni]) }
+  | newBatch idx =>
+    simp only [step, h.nb]
+    refine ⟨by first | rfl | trivial, ?_⟩
+    exact {
+      db := h.db, sorted := h.sorted, nb := (by first | rfl | simp [h.nb]), ns := h.ns, ni := h.ni,
+      snaps := h.snaps,
+      batches := by
+        intro n
+        by_cases hn : n = ws.nb
+        · subst hn; simp only [upd_same]; exact ⟨rfl, S.empty _ _⟩
+        · simp only [upd_other _ _ _ hn]; exact h.batches n
+      fresh := by
+        intro n hn
+        have : n ≠ ws.nb := by
+          have : ws.nb + 1 ≤ n := hn
+          omega
+        simp only [upd_other _ _ _ this]
+        exact h.fresh n (by have : ws.nb + 1 ≤ n := hn; omega)
+      iters := h.iters }
+  | bput b k v =>
+    cases hsb : ws.batches b with
+    | none =>
+      simp only [step, batchGone, hsb, (batches_none_iff S h b).mpr hsb, h.nb]; exact ⟨by first | rfl | trivial, h⟩
+    | some y =>
+      obtain ⟨sb, j⟩ := y
+      obtain ⟨mb, hm, hrb⟩ := batches_some S h hsb
+      simp only [step, hm, hsb]
+      exact ⟨by first | rfl | trivial, R_setbatch S h b (by rw [hsb]; simp) _ _ j (S.put k v hrb)⟩
+  | bdel b k =>
+    cases hsb : ws.batches b with
+    | none =>
+      simp only [step, batchGone, hsb, (batches_none_iff S h b).mpr hsb, h.nb]; exact ⟨by first | rfl | trivial, h⟩
+    | some y =>
+      obtain ⟨sb, j⟩ := y
+      obtain ⟨mb, hm, hrb⟩ := batches_some S h hsb
+      simp only [step, hm, hsb]
+      exact ⟨by first | rfl | trivial, R_setbatch S h b (by rw [hsb]; simp) _ _ j (S.del k hrb)⟩
+  | bdelRange b s e =>
+    cases hsb : ws.batches b with
+    | none =>
+      simp only [step, batchGone, hsb, (batches_none_iff S h b).mpr hsb, h.nb]; exact ⟨by first | rfl | trivial, h⟩
+    | some y =>
+      obtain ⟨sb, j⟩ := y
+      obtain ⟨mb, hm, hrb⟩ := batches_some S h hsb
+      cases hd : ws.db with
+      | none => simp [documented, hd] at hdoc
+      | some d =>
+        have hb1 : wm.db.getD [] = d := by rw [h.db, hd]; rfl
+        have hb2 : ws.db.getD [] = d := by rw [hd]; rfl
+        simp only [step, hm, hsb, hb1, hb2]
+        rw [hd] at hrb
+        have := R_setbatch S h b (by rw [hsb]; simp) (M.bdelRange d mb s e) (specImpl.bdelRange d sb s e) j
+          (by rw [hd]; exact S.delRange s e (h.sorted d hd) hrb)
+        exact ⟨by first | rfl | trivial, this⟩
+  | bsize b =>
+    cases hsb : ws.batches b with
+    | none =>
+      simp only [step, hsb, (batches_none_iff S h b).mpr hsb, h.nb]; exact ⟨by first | rfl | trivial, h⟩
+    | some y =>
+      obtain ⟨sb, j⟩ := y
+      obtain ⟨mb, hm, hrb⟩ := batches_some S h hsb
+      simp only [step, hm, hsb]
+      have hn : noRange sb = true := by simpa [documented, hsb] using hdoc
+      refine ⟨?_, h⟩
+      show Out.size (M.bsize mb) = Out.size sb.size
+      rw [S.size hrb hn]
+  | bwrite b =>
+    cases hsb : ws.batches b with
+    | none =>
+      simp only [step, batchGone, hsb, (batches_none_iff S h b).mpr hsb, h.nb]; exact ⟨by first | rfl | trivial, h⟩
+    | some y =>
+      obtain ⟨sb, j⟩ := y
+      obtain ⟨mb, hm, hrb⟩ := batches_some S h hsb
+      cases hd : ws.db with
+      | none => simp only [step, hm, hsb, h.db, hd]; exact ⟨by first | rfl | trivial, h⟩
+      | some d =>
+        simp only [step, hsb, hd] at hf5
+        simp only [step, hm, hsb, h.db, hd]
+        refine ⟨by first | rfl | trivial, ?_⟩
+        rw [hd] at hrb
+        have hfl : M.bflush d mb = specImpl.bflush d sb := S.flush hrb
+        have := R_commit S h (some (specImpl.bflush d sb))
+          (by intro d' e; cases e; exact sorted_applyLog (h.sorted d hd) sb.log) (some b)
+          (fun hn n sb' i d' hne hsb' he => by
+            cases he
+            have hnb : n ≠ b := fun e => hne (by rw [e])
+            exact f5Free_get (ws := { ws with db := some (specImpl.bflush d sb), batches := upd ws.batches b none })
+              (by
+                intro m hm'
+                by_cases hmb : m = b
+                · subst hmb; simp
+                · simp only [upd_other _ _ _ hmb]; exact h.fresh m hm')
+              (hf5 hn) rfl (n := n) (sb := sb') (i := i)
+              (by show upd ws.batches b none n = some (sb', i); rw [upd_other _ _ _ hnb]; exact hsb'))
+        rw [hfl]
+        simpa only [commit_some_eq] using this
+  | bclose b =>
+    cases hsb : ws.batches b with
+    | none =>
+      simp only [step, batchGone, hsb, (batches_none_iff S h b).mpr hsb, h.nb]; exact ⟨by first | rfl | trivial, h⟩
+    | some y =>
+      obtain ⟨sb, j⟩ := y
+      obtain ⟨mb, hm, hrb⟩ := batches_some S h hsb
+      simp only [step, hm, hsb]
+      exact ⟨by first | rfl | trivial, R_closebatch S h b⟩
+  | snap =>
+    simp only [step, h.db]
+    cases hd : ws.db with
+    | none => exact ⟨by first | rfl | trivial, h⟩
+    | some d =>
+      simp only [h.ns, h.snaps]
+      exact ⟨by first | rfl | trivial, {
+        db := rfl
+        sorted := by intro d' hd'; cases hd'; exact h.sorted d hd
+        nb := h.nb, ns := rfl, ni := h.ni, snaps := rfl
+        batches := by
+          intro n
+          have := h.batches n
+          rw [hd] at this
+          exact this
+        fresh := h.fresh
+        iters := h.iters }⟩
+  | sclose s =>
+    simp only [step, h.snaps]
+    cases ws.snaps s with
+    | none => exact ⟨by first | rfl | trivial, h⟩
+    | some o =>
+      cases o with
+      | none => exact ⟨by first | rfl | trivial, h⟩
+      | some d => exact ⟨by first | rfl | trivial, { h with snaps := rfl }⟩
+  | first i => exact movePos_sim S h i _ _ (fun mi si hri => S.first hri)
+  | next i => exact movePos_sim S h i _ _ (fun mi si hri => S.next hri)
+  | prev i => exact movePos_sim S h i _ _ (fun mi si hri => S.prev hri)
+  | seek i t => exact movePos_sim S h i _ _ (fun mi si hri => S.seek t hri)
+  | value i =>
+    simp only [step]
+    rcases iters_cases S h i with ⟨h1, h2⟩ | ⟨h1, h2⟩ | ⟨mi, si, h1, h2, hri⟩
+    · rw [h1, h2]; exact ⟨by first | rfl | trivial, h⟩
+    · rw [h1, h2]; exact ⟨by first | rfl | trivial, h⟩
+    · rw [h1, h2]
+      have hsome : si.cur.isSome = true := by
+        simp only [documented, h2, Bool.and_eq_true] at hdoc; exact hdoc.2
+      have hcur : M.icur mi = specImpl.icur si := S.cur hri
+      simp only [hcur]
+      cases hc : specImpl.icur si with
+      | none =>
+        have : si.cur = none := hc
+        rw [this] at hsome; cases hsome
+      | some kv => exact ⟨by first | rfl | trivial, h⟩
+  | key i =>
+    simp only [step]
+    rcases iters_cases S h i with ⟨h1, h2⟩ | ⟨h1, h2⟩ | ⟨mi, si, h1, h2, hri⟩
+    · rw [h1, h2]; exact ⟨by first | rfl | trivial, h⟩
+    · rw [h1, h2]; exact ⟨by first | rfl | trivial, h⟩
+    · rw [h1, h2]
+      have hcur : M.icur mi = specImpl.icur si := S.cur hri
+      simp only [hcur]
+      cases specImpl.icur si <;> exact ⟨by first | rfl | trivial, h⟩
+  | iclose i =>
+    simp only [step]
+    rcases iters_cases S h i with ⟨h1, h2⟩ | ⟨h1, h2⟩ | ⟨mi, si, h1, h2, hri⟩
+    · rw [h1, h2]; exact ⟨by first | rfl | trivial, h⟩
+    · rw [h1, h2]; exact ⟨by first | rfl | trivial, h⟩
+    · rw [h1, h2]; exact ⟨by first | rfl | trivial, R_setiter S h i none none trivial ws.iorigin⟩
+  | update idx fail ops =>
+    cases hd : ws.db with
+    | none => simp only [step, h.db, hd]; exact ⟨by first | rfl | trivial, h⟩
+    | some d =>
+      simp only [step, hd] at hf5
+      simp only [step, h.db, hd]
+      have hin := runInner_sim S d (h.sorted d hd) idx ops _ _ (S.empty idx (some d))
+      cases fail with
+      | true =>
+        simp only [if_true]
+        exact ⟨by rw [hin.1], h⟩
+      | false =>
+        simp only [Bool.false_eq_true, if_false] at hf5 ⊢
+        refine ⟨by rw [hin.1], ?_⟩
+        have hfl : M.bflush d (runInner M d idx ops (M.bempty idx)).1 =
+            specImpl.bflush d (runInner specImpl d idx ops (specImpl.bempty idx)).1 := S.flush hin.2
+        have := R_commit S h (some (specImpl.bflush d (runInner specImpl d idx ops (specImpl.bempty idx)).1))
+          (by intro d' e; cases e; exact sorted_applyLog (h.sorted d hd) _) none
+          (fun hn n sb i d' hne hsb he => by
+            cases he
+            exact f5Free_get
+              (ws := { ws with db := some (specImpl.bflush d (runInner specImpl d idx ops (specImpl.bempty idx)).1) })
+              h.fresh (hf5 hn) rfl hsb)
+        rw [hfl]
+        simpa only [commit_none_eq] using this
+  | reopen =>
+    simp only [step, h.db]
+    cases ws.db <;> exact ⟨by first | rfl | trivial, h⟩
+  | close =>
+    simp only [step]
+    refine ⟨by first | rfl | trivial, ?_⟩
+    have := R_commit S h none (by intro d e; cases e) none (fun _ n sb i d' _ _ he => by cases he)
+    simpa only [commit_none_eq] using this
+
+end
 
 end Juno.C15
